@@ -77,6 +77,16 @@ CLAIMED = {
  "C02": ("proptest: boolean / scalar expression trees over a table that is the full cross product of tiny nullable domains, each tree observed in six placements (WHERE, projection, HAVING, WHERE above LEFT JOIN, INNER ON, LEFT ON); oracle = refsql plus an independent per-row 3VL evaluator",
          "Trees of depth <=4 over comparisons, IS NULL, IN-lists with NULL elements, BETWEEN, LIKE, AND/OR/NOT, IS DISTINCT FROM, boolean columns and literal-only subtrees (constant folding), a third inside the compiled-predicate subset: kept rows = rows where the predicate is TRUE, projected value exactly TRUE/FALSE/NULL, CASE/COALESCE/NULLIF/arithmetic NULL exactly where SQL says. Exploration; non-trivial = a NULL sub-result on which null-strict evaluation would decide differently.",
          "Two independent oracles (refsql and the module's evaluator) are compared on every case.", "5 C02"),
+ "C21": ("proptest with a focused aggregate generator; each statement is run through six engine configurations (memory 1 batch / many batches, spilling memory limit, Parquet morsel / forced-disjoint / morsel-off) and every answer is compared with refsql",
+         "Grouped, global and LEFT-JOINed COUNT(*)/COUNT/SUM/AVG/MIN/MAX/COUNT(DISTINCT) over columns with 0/30/70/100 % NULLs, NULL group keys, never-true filters: NULL inputs ignored, SUM/AVG/MIN/MAX of no non-NULL input NULL and COUNT 0, NULL keys one group, a global aggregate over no rows exactly one row - on every path. Path marks (verif-hooks) measure which aggregation path ran. Exploration.",
+         "Configurations that set a process-global hook run under an exclusive lock.", "5 C21"),
+ "C22": ("proptest with a focused join generator (2- and 3-relation shapes, all seven join kinds, 1-3 equi-keys over BIGINT/INTEGER/VARCHAR/DATE incl. mixed widths, residual ON predicates, NULL keys, duplicates, empty sides); refsql nested-loop oracle across memory / spill / Parquet / forced-streaming configurations plus the swapped statement",
+         "Inner, left, right, full, semi, anti, cross and comma joins must return exactly the SQL result: NULL keys never match, unmatched rows NULL-extended, residual ON filters candidate pairs before match tracking, independent of build side, runtime filters and registration. Exploration.",
+         "PARALLEL_BUILD_THRESHOLD is not crossed in the quick tier.", "5 C22"),
+ "C25": ("proptest with a focused ORDER BY/LIMIT/OFFSET generator; validity predicate over refsql's sorted multiset with tie groups; each case run with default memory and with a really-spilling memory limit; LIMIT inside derived tables with a total order",
+         "1-4 sort keys (alias, ordinal, non-selected column, expression) x ASC/DESC x NULLS FIRST/LAST/default over nullable int/float/string/date/bool columns with heavy ties, every LIMIT/OFFSET combination, 0-30 or 1000+ rows in 0-10 batches: output ordered as stated, NULLs placed as stated (default last), LIMIT n OFFSET m = rows m+1..m+n up to ties, for full sort, fused top-k and spilled sort. Exploration.",
+         "Runs above 8192 rows per spill run are not exercised in the quick tier.", "5 C25"),
+
  "C23": ("proptest with a focused subquery generator; two oracles: refsql, and production optimizer vs the rule list without SubqueryDecorrelation/FlattenDependentJoin (row-by-row executor)",
          "[NOT] EXISTS / [NOT] IN / scalar aggregate subqueries in WHERE and SELECT list, correlated on 0-2 (in)equalities in either orientation, under AND/OR/NOT, over joins or derived tables, nesting depth 2, NULLs and empties on both sides: engine answer must equal refsql and the decorrelated plan must equal row-by-row execution. Exploration; the coarse 'correlated-subquery' class is replaced here by ten root-cause signatures.",
          "Scalar subqueries are aggregates only (provably single-row non-aggregates are not generated).", "5 C23"),
